@@ -57,7 +57,9 @@ CLAIMED["C05"] = dict(
               "evaluator on both evaluation paths (eval_node and generated code)",
     text="Every generated expression is rendered in three syntactic variants (spacing, ^ vs **, parenthesisation, "
          "number formats, both derivative notations), evaluated by ExpressionParser+eval_node and by a compiled "
-         "one-equation operator at several argument assignments, and compared with the value its arithmetic denotes.",
+         "one-equation operator at several argument assignments, and compared with the value its arithmetic denotes. Arm "
+         "index: index/index_2d/index_axis/index_range forms on vector and matrix constants, on both paths, with "
+         "parameter indices changed through the returned argument list, compared with NumPy indexing.",
     note="Real-valued scalar expressions; functions maxi/mini/round and complex constants not generated; tolerance "
          "1e-9*M+1e-12.",
     design_ref="DESIGN.md §4 C05")
@@ -202,10 +204,12 @@ CLAIMED["C07"] = dict(
          "transient get_run_func(node_values/edge_values) calls over a circuit, a sibling built from the same template "
          "objects, optionally one sub-circuit template used for two branches, and the forks: after every step argument "
          "values by name, y0 and the vector field (edge weights) of EVERY instance must equal that instance's model; a "
-         "final vectorized two-step run is compared with the reference recurrence.",
+         "final vectorized two-step run is compared with the reference recurrence. Arm edge_values: edges through one shared "
+         "EdgeTemplate whose operator constants are set by template variations, edge attribute dictionaries and "
+         "update_var(edge_vars=...), compared with the closed-form right-hand side.",
     note="Observations compile joint deep copies of the instances (remembered simulation state is by design and would "
-         "mask later initial-value overrides); edge-operator variables of EdgeTemplates are not generated; <=4 instances, "
-         "<=8 operations.",
+         "mask later initial-value overrides); <=4 instances, <=8 operations; shapes of listed findings excluded and "
+         "counted.",
     design_ref="DESIGN.md §4 C07", engine="hypothesis-stateful")
 
 CLAIMED["C13"] = dict(
@@ -214,7 +218,9 @@ CLAIMED["C13"] = dict(
     text="2-3 generated models sharing operator/node/file/function names (different equations, defaults, node sets or "
          "weights) are constructed, compiled (NumPy/torch/jax/Fortran), simulated, updated and cleared in drawn orders "
          "without any reset; every observed result (y0, arguments, vector field, rows, Jacobian) must equal the result "
-         "of the same operation in a fresh interpreter, and functions returned earlier must keep their values.",
+         "of the same operation in a fresh interpreter, and functions returned earlier must keep their values. Arm sweep: the "
+         "same structure compiled/run twice in a row with changed weights, defaults or equations on one backend with the "
+         "same file and function names (hand-written parameter sweep).",
     note="One subprocess per judged model per history (the reference); generated in_edge operator names are compared as "
          "multisets of values; models that fail in the fresh interpreter are not judged; <=9 operations.",
     design_ref="DESIGN.md §4 C13", engine="hypothesis-stateful")
